@@ -58,7 +58,7 @@ def _tuple_fields(ty):
     return out
 
 
-def inline_calls(facts, body, want, max_depth=MAX_DEPTH, lookup=None):
+def inline_calls(facts, body, want, max_depth=MAX_DEPTH, lookup=None, only=None):
     """New Body in which every call site with want(callee_body, term) true is replaced by the callee's blocks.
     Returns (body, [inlined callee paths]); the body is returned unchanged if nothing was inlined."""
     lookup = lookup or facts.body_of_fnconst
@@ -69,8 +69,8 @@ def inline_calls(facts, body, want, max_depth=MAX_DEPTH, lookup=None):
     blocks = body.blocks
     while bi < len(blocks):
         t = blocks[bi]['term']
-        if t['t'] == 'call' and t['func'].get('k') == 'const' and 'fn' in t['func']:
-            cb = lookup(t['func'])
+        if t['t'] == 'call' and t['func'].get('k') == 'const' and 'fn' in t['func'] and (only is None or bi in only):
+            cb = only[bi] if only is not None else lookup(t['func'])
             st = chain.get(bi, ())
             if cb is not None and cb is not body and cb.path != body.path and cb.path not in st and len(st) < max_depth \
                     and want(cb, t):
@@ -136,8 +136,13 @@ def _splice(raw, bi, t, cb, chain, st):
         for p, a in zip(params, args):
             pro.append((p, a))
     for p, a in pro:
-        blocks[bi]['stmts'].append({'s': 'assign', 'place': {'l': lmap(p), 'p': [], 'ty': cb.locals[p]['ty']},
-                                    'rv': {'r': 'use', 'a': copy.deepcopy(a)}, 'span': span, 'inl_arg': cb.path})
+        pty = cb.locals[p]['ty']
+        rv = {'r': 'use', 'a': copy.deepcopy(a)}
+        if cb.is_closure and p == 1 and pty.startswith('&') and not a.get('ty', '&').startswith('&') and 'l' in a:
+            # call through FnOnce of a closure whose body takes its environment by reference (the once-shim)
+            rv = {'r': 'ref', 'mut': pty.startswith('&mut'), 'bk': 'Shim', 'place': {'l': a['l'], 'p': list(a['p']), 'ty': a.get('ty')}}
+        blocks[bi]['stmts'].append({'s': 'assign', 'place': {'l': lmap(p), 'p': [], 'ty': pty},
+                                    'rv': rv, 'span': span, 'inl_arg': cb.path})
     # exit block: destination receives the return slot
     exit_b = base_b + len(cb.blocks)
     dest, target, unwind = t['dest'], t['target'], t.get('unwind')
@@ -160,6 +165,68 @@ def _splice(raw, bi, t, cb, chain, st):
     chain[exit_b] = st
     blocks[bi]['term'] = {'t': 'goto', 'target': base_b, 'span': span, 'inl_call': cb.path,
                           'inl_fn_span': t.get('fn_span')}
+
+
+CLOSURE_CALLS = ('ops::FnOnce::call_once', 'ops::FnMut::call_mut', 'ops::Fn::call',
+                 'ops::function::FnOnce::call_once', 'ops::function::FnMut::call_mut', 'ops::function::Fn::call')
+
+
+def resolve_closure_calls(facts, body, rounds=4):
+    """Calls of a closure-typed *parameter* inside an inlined generic helper are unresolved in the helper's own MIR; once
+    spliced, the parameter is a move of a closure the caller built: splice that closure's body too.  A function item
+    passed where a closure is expected (`fold(MIN, f64::max)`) becomes a direct call."""
+    from .mirutil import Tracer
+    total = []
+    for _ in range(rounds):
+        tr = Tracer(body)
+        targets = {}
+        direct = {}
+        for bi, t in body.calls():
+            fc = t['func']
+            if fc.get('k') != 'const' or fc.get('resolved_local'):
+                continue
+            nm = fc.get('fn') or ''
+            if not nm.endswith(CLOSURE_CALLS) or not t['args']:
+                continue
+            o = tr.origin(t['args'][0])
+            if o['o'] == 'rvalue' and o['rv'].get('r') == 'aggr' and o['rv'].get('agg') == 'closure' and o['p'] in ([], ['ref']):
+                cb = facts.body(o['rv']['closure'])
+                if cb is not None:
+                    targets[bi] = cb
+            elif o['o'] == 'const' and 'closure' in o['c'] and o['p'] in ([], ['ref']):
+                cb = facts.body(o['c']['closure'])
+                if cb is not None:
+                    targets[bi] = cb
+            elif o['o'] == 'const' and 'fn' in o['c'] and o['p'] in ([], ['ref']):
+                direct[bi] = o['c']
+        if direct:
+            raw = dict(body.raw)
+            raw['blocks'] = copy.deepcopy(body.raw['blocks'])
+            for bi, fconst in direct.items():
+                t = raw['blocks'][bi]['term']
+                tup = t['args'][1] if len(t['args']) > 1 else None
+                n = len(_tuple_fields(tup.get('ty', '')) or []) if tup else 0
+                if tup is not None and 'l' in tup:
+                    t['args'] = [{'k': 'move', 'l': tup['l'], 'p': list(tup['p']) + [{'f': j, 'n': str(j), 'of': tup.get('ty', ''), 'ty': '?'}],
+                                  'ty': '?'} for j in range(n)]
+                else:
+                    t['args'] = []
+                t['func'] = copy.deepcopy(fconst)
+                t['devirtualised'] = True
+            nb = Body(raw, body.crate_kind)
+            nb.key_in_facts = getattr(body, 'key_in_facts', body.path)
+            nb.inlined = list(getattr(body, 'inlined', []))
+            nb.original = getattr(body, 'original', body)
+            body = nb
+            if not targets:
+                continue
+        if not targets:
+            break
+        body, inl = inline_calls(facts, body, lambda cb, t: True, lookup=None, only=targets)
+        if not inl:
+            break
+        total += inl
+    return body, total
 
 
 def normalise(facts, known):
@@ -185,6 +252,8 @@ def normalise(facts, known):
     for k, b in list(originals.items()):
         nb, inl = inline_calls(facts, b, want, lookup=lookup)
         if inl:
+            nb, inl2 = resolve_closure_calls(facts, nb)
+            nb.inlined = sorted(set(nb.inlined) | set(inl2))
             facts.bodies[k] = nb
             nb.key_in_facts = k
             if nb.canon:
